@@ -393,3 +393,358 @@ Proof.
     rewrite fresh_id_free in En. discriminate. }
   destruct (etag t); eapply Hgoi; exact Hm.
 Qed.
+
+(** ** [get_node] *)
+
+Lemma cnode_total : forall s e, ref_ok s (eref e) -> exists v, cnode s e = Some v.
+Proof.
+  intros s e Hok. unfold cnode. destruct (eref e) as [t|id].
+  - destruct Hok as [v E]. rewrite E. eauto.
+  - destruct Hok as [nd E]. rewrite E. eauto.
+Qed.
+
+Lemma cnode_NVI : forall s e nd, cnode s e = Some (NVI nd) ->
+  exists id, eref e = RN id /\ find_node s id = Some nd.
+Proof.
+  intros s e nd. unfold cnode. destruct (eref e) as [t|id].
+  - destruct (term_val s t); discriminate.
+  - destruct (find_node s id) as [nd'|] eqn:E; [|discriminate].
+    intros X. inversion X; subst. eauto.
+Qed.
+
+Lemma cnode_NVT : forall s e, cnode s e = Some NVT -> exists t, eref e = RT t.
+Proof.
+  intros s e. unfold cnode. destruct (eref e) as [t|id]; [eauto|].
+  destruct (find_node s id); discriminate.
+Qed.
+
+(** ** Every case of [terminal_and] / [terminal_xor] agrees with the connective *)
+
+Lemma ref_eqb_true : forall a b, ref_eqb a b = true -> a = b.
+Proof. intros a b. apply ref_eqb_eq. Qed.
+
+Theorem cterminal_sound : forall s op f g phi psi, BcOK s -> DenC s f phi -> DenC s g psi ->
+  match cterminal s op f g with
+  | KDone r => DenC s r (fun c => ceval op (phi c) (psi c))
+  | KNodes fn gn => exists idf idg, eref f = RN idf /\ find_node s idf = Some fn /\
+                                    eref g = RN idg /\ find_node s idg = Some gn
+  | KFail => False
+  end.
+Proof.
+  intros s op f g phi psi B Df Dg.
+  (* facts about the operands' functions, case by case *)
+  assert (Fsame : eref f = eref g -> etag f = etag g -> forall c, bchoice c -> phi c = psi c).
+  { intros Er Et. assert (f = g) by (apply edge_ext; assumption). subst g.
+    apply (denc_unique s f phi psi Df Dg). }
+  assert (Fopp : eref f = eref g -> etag f = negb (etag g) -> forall c, bchoice c -> phi c = negb (psi c)).
+  { intros Er Et. assert (f = enot g) by (apply edge_ext; simpl; assumption). subst f.
+    apply (denc_unique s (enot g) phi _ Df (denc_not s g psi Dg)). }
+  assert (Ff : cnode s f = Some NVT -> forall c, bchoice c -> phi c = negb (etag f)).
+  { intros V. destruct (cnode_NVT s f V) as [t Et]. apply (denc_term s f t phi Df Et). }
+  assert (Fg : cnode s g = Some NVT -> forall c, bchoice c -> psi c = negb (etag g)).
+  { intros V. destruct (cnode_NVT s g V) as [t Et]. apply (denc_term s g t psi Dg Et). }
+  Local Ltac pwc phi psi :=
+    let c := fresh "c" in let Hc := fresh "Hc" in
+    intros c Hc; cbv beta;
+    repeat match goal with
+           | Hx : forall c, bchoice c -> _ = _ |- _ => pose proof (Hx c Hc); clear Hx
+           end;
+    destruct (phi c); destruct (psi c); simpl in *; congruence.
+  Local Ltac kt s B phi psi :=
+    match goal with
+    | |- match kterm s ?b with _ => _ end =>
+        let e := fresh "e" in let Ee := fresh "Ee" in let De := fresh "De" in
+        destruct (cget_terminal_den s b B) as [e [Ee De]]; unfold kterm; rewrite Ee;
+        apply (denc_ext s e _ _ De); pwc phi psi
+    end.
+  destruct (cnode_total s f (proj1 Df)) as [vf Vf]. destruct (cnode_total s g (proj1 Dg)) as [vg Vg].
+  destruct op; unfold cterminal, cterminal_and, cterminal_xor;
+    (destruct (ref_eqb (eref f) (eref g)) eqn:Er;
+     [ apply ref_eqb_true in Er; specialize (Fsame Er); specialize (Fopp Er); clear Ff Fg;
+       destruct (Bool.eqb (etag f) (etag g)) eqn:Et;
+       [ apply bool_eqb_true in Et; specialize (Fsame Et); clear Fopp
+       | apply bool_eqb_false in Et; specialize (Fopp Et); clear Fsame ]
+     | clear Fsame Fopp; rewrite Vf, Vg; destruct vf as [fn|], vg as [gn|];
+       [ destruct (cnode_NVI s f fn Vf) as [idf [Ef Efn]]; destruct (cnode_NVI s g gn Vg) as [idg [Eg Egn]];
+         exists idf, idg; auto
+       | specialize (Fg Vg); clear Ff; destruct (etag g) eqn:Tg
+       | specialize (Ff Vf); clear Fg; destruct (etag f) eqn:Tf
+       | specialize (Ff Vf); specialize (Fg Vg); destruct (etag f) eqn:Tf; destruct (etag g) eqn:Tg ] ]);
+    cbv beta iota;
+    try (kt s B phi psi; fail);
+    try (apply (denc_ext s f phi _ Df); pwc phi psi; fail);
+    try (apply (denc_ext s g psi _ Dg); pwc phi psi; fail);
+    try (apply (denc_ext s (enot f) _ _ (denc_not s f phi Df)); pwc phi psi; fail);
+    try (apply (denc_ext s (enot g) _ _ (denc_not s g psi Dg)); pwc phi psi; fail).
+Qed.
+
+(** ** Caches *)
+
+Section CacheSec.
+Variable lt : edge -> edge -> bool.
+Variable C : Type.
+Variable cget : C -> N -> list edge -> option edge.
+Variable cadd : C -> N -> list edge -> edge -> C.
+
+(** the only thing assumed about the cache: what it serves after an insertion
+    is the inserted entry or something it served before *)
+Definition lossyC : Prop :=
+  forall c k a r k' a' r', cget (cadd c k a r) k' a' = Some r' ->
+    (k' = k /\ a' = a /\ r' = r) \/ cget c k' a' = Some r'.
+
+Hypothesis Hlossy : lossyC.
+
+(** an entry is correct in table [s] *)
+Definition centry_ok (s : snap) (code : N) (args : list edge) (r : edge) : Prop :=
+  match args with
+  | [f; g] => forall o, code = cop_code o ->
+      exists phi psi, DenC s f phi /\ DenC s g psi /\
+                      DenC s r (fun c => ceval o (phi c) (psi c))
+  | [f; g; h] => code = ccode_ite ->
+      exists phi psi theta, DenC s f phi /\ DenC s g psi /\ DenC s h theta /\
+                            DenC s r (fun c => if phi c then psi c else theta c)
+  | _ => True
+  end.
+
+Definition CacheOKC (s : snap) (c : C) : Prop :=
+  forall code args r, cget c code args = Some r -> centry_ok s code args r.
+
+Lemma centry_ok_extends : forall s s' code args r, BcOK s -> extends s s' ->
+  centry_ok s code args r -> centry_ok s' code args r.
+Proof.
+  intros s s' code args r B X. unfold centry_ok.
+  destruct args as [|f [|g [|h [|x rest]]]]; auto.
+  - intros Hx o Hc. destruct (Hx o Hc) as [phi [psi [A [A' D]]]]. exists phi, psi.
+    repeat split; eapply denc_extends; eauto.
+  - intros Hx Hc. destruct (Hx Hc) as [phi [psi [theta [A [A' [A'' D]]]]]]. exists phi, psi, theta.
+    repeat split; eapply denc_extends; eauto.
+Qed.
+
+Lemma ccacheok_extends : forall s s' c, BcOK s -> extends s s' -> CacheOKC s c -> CacheOKC s' c.
+Proof. intros s s' c B X O code args r E. eapply centry_ok_extends; eauto. Qed.
+
+Lemma ccacheok_add : forall s c code args r, CacheOKC s c -> centry_ok s code args r ->
+  CacheOKC s (cadd c code args r).
+Proof.
+  intros s c code args r O Hn code' args' r' E.
+  destruct (Hlossy _ _ _ _ _ _ _ E) as [[-> [-> ->]]|E']; [exact Hn | apply (O _ _ _ E')].
+Qed.
+
+Definition cresult_ok (s : snap) (c : C) (res : cres C) (Phi : (nat -> nat) -> bool) : Prop :=
+  exists s' c' r, res = Some (s', c', r) /\
+    BcOK s' /\ extends s s' /\ CacheOKC s' c' /\ DenC s' r Phi /\
+    (* if the result function already has an edge, that edge is returned and
+       the table is unchanged *)
+    (forall r0, DenC s r0 Phi -> s' = s /\ r = r0).
+
+Lemma cresult_ok_ext : forall s c res Phi Phi', cresult_ok s c res Phi ->
+  (forall c0, bchoice c0 -> Phi c0 = Phi' c0) -> cresult_ok s c res Phi'.
+Proof.
+  intros s c res Phi Phi' [s' [c' [r [E [B [X [O [D S]]]]]]]] Hp.
+  exists s', c', r. split; [exact E|]. split; [exact B|]. split; [exact X|]. split; [exact O|].
+  split; [apply (denc_ext s' r Phi Phi' D Hp)|].
+  intros r0 D0. apply S. apply (denc_ext s r0 Phi' Phi D0). intros c0 Hc. symmetry. apply Hp. exact Hc.
+Qed.
+
+Lemma cresult_ok_here : forall s c r Phi, BcOK s -> CacheOKC s c -> DenC s r Phi ->
+  cresult_ok s c (Some (s, c, r)) Phi.
+Proof.
+  intros s c r Phi B O D. exists s, c, r.
+  split; [reflexivity|]. split; [exact B|]. split; [apply extends_refl|]. split; [exact O|].
+  split; [exact D|]. intros r0 D0. split; [reflexivity | apply (denc_canon s r r0 Phi B D D0)].
+Qed.
+
+(** [Ok(not_owned(r?))] *)
+Lemma cresult_ok_not : forall s c res Phi, cresult_ok s c res Phi ->
+  cresult_ok s c (onot C res) (fun c0 => negb (Phi c0)).
+Proof.
+  intros s c res Phi [s' [c' [r [E [B [X [O [D S]]]]]]]].
+  exists s', c', (enot r). split; [rewrite E; reflexivity|].
+  split; [exact B|]. split; [exact X|]. split; [exact O|]. split; [apply denc_not; exact D|].
+  intros r0 D0.
+  assert (D0' : DenC s (enot r0) Phi).
+  { apply (denc_ext s (enot r0) _ _ (denc_not s r0 _ D0)). intros c0 _. apply negb_involutive. }
+  destruct (S _ D0') as [Es Er]. split; [exact Es|]. rewrite Er. apply enot_invol.
+Qed.
+
+(** ** [not]: the tag flip *)
+Theorem capply_not_ok : forall s c f phi, BcOK s -> CacheOKC s c -> DenC s f phi ->
+  cresult_ok s c (capply_not C s c f) (fun c0 => negb (phi c0)).
+Proof.
+  intros s c f phi B O D. unfold capply_not. apply cresult_ok_here; auto. apply denc_not. exact D.
+Qed.
+
+(** ** [apply_bin] *)
+
+Lemma ceval_comm : forall o x y, ceval o x y = ceval o y x.
+Proof. intros [] [] []; reflexivity. Qed.
+
+Lemma cop_code_inj : forall o o', cop_code o = cop_code o' -> o = o'.
+Proof. intros [] [] E; simpl in E; try discriminate; reflexivity. Qed.
+
+(** the step after the terminal cases, for any [rec] that is correct on
+    operands one level further down *)
+Lemma cbin_step_ok : forall op n (rec : snap -> C -> edge -> edge -> cres C),
+  (forall s c f g phi psi, BcOK s -> CacheOKC s c -> DenC s f phi -> DenC s g psi ->
+     nlevels s - Nat.min (rlevel s (eref f)) (rlevel s (eref g)) < n ->
+     cresult_ok s c (rec s c f g) (fun c0 => ceval op (phi c0) (psi c0))) ->
+  forall s c f idf fnd g idg gnd phi psi,
+    BcOK s -> CacheOKC s c -> DenC s f phi -> DenC s g psi ->
+    eref f = RN idf -> find_node s idf = Some fnd ->
+    eref g = RN idg -> find_node s idg = Some gnd ->
+    nlevels s - Nat.min (nlevel fnd) (nlevel gnd) < S n ->
+    cresult_ok s c (cbin_step C cget cadd rec s c op f fnd g gnd)
+               (fun c0 => ceval op (phi c0) (psi c0)).
+Proof.
+  intros op n rec IH s c f idf fnd g idg gnd phi psi B O Df Dg Erf Ef Erg Eg Hfuel.
+  pose proof (bc_wf s B) as H.
+  pose proof (wf_level s H idf fnd Ef) as Hlf. pose proof (wf_level s H idg gnd Eg) as Hlg.
+  unfold cbin_step.
+  destruct (cget c (cop_code op) [f; g]) as [h|] eqn:Ec.
+  - (* cache hit *)
+    destruct (O _ _ _ Ec op eq_refl) as [pa [pb [Da [Db Dh]]]].
+    apply cresult_ok_here; auto. apply (denc_ext s h _ _ Dh). intros c0 Hc.
+    rewrite (denc_unique s _ pa phi Da Df c0 Hc), (denc_unique s _ pb psi Db Dg c0 Hc). reflexivity.
+  - rewrite (wf_stored s H idf fnd Ef), (wf_stored s H idg gnd Eg).
+    set (lvl := Nat.min (nlevel fnd) (nlevel gnd)) in *. cbv zeta.
+    destruct (ccof2_ok s f idf fnd phi lvl B Df Erf Ef ltac:(lia)) as [ft [fe [Ecf [Dft [Dfe [Lft Lfe]]]]]].
+    destruct (ccof2_ok s g idg gnd psi lvl B Dg Erg Eg ltac:(lia)) as [gt' [ge [Ecg [Dgt [Dge [Lgt Lge]]]]]].
+    rewrite Ecf, Ecg.
+    assert (Hlvl : lvl < nlevels s) by lia.
+    destruct (IH s c ft gt' _ _ B O Dft Dgt ltac:(lia)) as [s1 [c1 [t [E1 [B1 [X1 [O1 [D1 S1]]]]]]]].
+    rewrite E1.
+    assert (Dfe1 : DenC s1 fe (cofn phi lvl 1)) by (apply (denc_extends s s1 _ _ B X1 Dfe)).
+    assert (Dge1 : DenC s1 ge (cofn psi lvl 1)) by (apply (denc_extends s s1 _ _ B X1 Dge)).
+    assert (Hf1 : nlevels s1 - Nat.min (rlevel s1 (eref fe)) (rlevel s1 (eref ge)) < n).
+    { rewrite (ext_nlevels _ _ X1), (ext_rlevel _ _ _ X1 (proj1 Dfe)), (ext_rlevel _ _ _ X1 (proj1 Dge)). lia. }
+    destruct (IH s1 c1 fe ge _ _ B1 O1 Dfe1 Dge1 Hf1) as [s2 [c2 [e [E2 [B2 [X2 [O2 [D2 S2]]]]]]]].
+    rewrite E2.
+    destruct (cmk_node s2 lvl t e) as [s3 h] eqn:Em.
+    assert (D1' : DenC s2 t (fun c0 => ceval op (cofn phi lvl 0 c0) (cofn psi lvl 0 c0)))
+      by (apply (denc_extends s1 s2 _ _ B1 X2 D1)).
+    assert (Ip : indep phi (nlevel fnd)).
+    { rewrite <- (rlevel_node s idf fnd Ef), <- Erf. apply (denc_indep s _ phi H Df). }
+    assert (Iq : indep psi (nlevel gnd)).
+    { rewrite <- (rlevel_node s idg gnd Eg), <- Erg. apply (denc_indep s _ psi H Dg). }
+    assert (II : forall i, i < 2 ->
+              indep (fun c0 => ceval op (cofn phi lvl i c0) (cofn psi lvl i c0)) (S lvl)).
+    { intros i Hi x y Hx Hy Exy. f_equal.
+      - apply (indep_cofn phi _ lvl i Ip ltac:(lia) Hi); auto.
+      - apply (indep_cofn psi _ lvl i Iq ltac:(lia) Hi); auto. }
+    assert (Hl2 : lvl < nlevels s2)
+      by (rewrite (ext_nlevels _ _ X2), (ext_nlevels _ _ X1); exact Hlvl).
+    destruct (cnode_step s2 lvl t e _ _ s3 h B2 Hl2 D1' D2 (II 0 ltac:(lia)) (II 1 ltac:(lia)) Em)
+      as [B3 [X3 Dh]].
+    assert (X03 : extends s s3) by (eapply extends_trans; [|exact X3]; eapply extends_trans; eauto).
+    assert (Heq : forall c0, bchoice c0 ->
+              (if Nat.eqb (c0 lvl) 0 then ceval op (cofn phi lvl 0 c0) (cofn psi lvl 0 c0)
+               else ceval op (cofn phi lvl 1 c0) (cofn psi lvl 1 c0))
+              = ceval op (phi c0) (psi c0)).
+    { intros c0 Hc.
+      rewrite (shannon_pick c0 lvl
+                 (fun i => ceval op (cofn phi lvl i c0) (cofn psi lvl i c0)) Hc).
+      rewrite (denc_upd_self s _ phi c0 lvl H Df Hc), (denc_upd_self s _ psi c0 lvl H Dg Hc).
+      reflexivity. }
+    assert (Dres : DenC s3 h (fun c0 => ceval op (phi c0) (psi c0)))
+      by (apply (denc_ext _ _ _ _ Dh Heq)).
+    exists s3, (cadd c2 (cop_code op) [f; g] h), h.
+    split; [reflexivity|]. split; [exact B3|]. split; [exact X03|].
+    split; [|split; [exact Dres|]].
+    { apply ccacheok_add; [apply (ccacheok_extends s2 s3 c2 B2 X3 O2)|].
+      intros o Ho. apply cop_code_inj in Ho. subst o.
+      exists phi, psi. split; [apply (denc_extends s s3 _ _ B X03 Df)|].
+      split; [apply (denc_extends s s3 _ _ B X03 Dg) | exact Dres]. }
+    intros r0 D0.
+    assert (J : indep (fun c0 => ceval op (phi c0) (psi c0)) lvl).
+    { intros x y Hx Hy Exy. f_equal.
+      - apply (indep_mono phi _ lvl Ip ltac:(lia)); auto.
+      - apply (indep_mono psi _ lvl Iq ltac:(lia)); auto. }
+    assert (L0 : lvl <= rlevel s (eref r0)) by (apply (denc_level s r0 _ lvl B D0 ltac:(lia) J)).
+    destruct (denc_cof_exists s r0 _ lvl 0 B D0 L0 Hlvl ltac:(lia)) as [q0 Dq0].
+    destruct (denc_cof_exists s r0 _ lvl 1 B D0 L0 Hlvl ltac:(lia)) as [q1 Dq1].
+    destruct (S1 q0 Dq0) as [Es1 Et]. subst s1 t.
+    destruct (S2 q1 Dq1) as [Es2 Ee]. subst s2 e.
+    destruct (cmk_node_stable s lvl q0 q1 _ _ s3 h r0 B Hlvl D1' D2 (II 0 ltac:(lia)) (II 1 ltac:(lia)) Em)
+      as [Es3 Eh]; auto.
+    apply (denc_ext s r0 _ _ D0). intros c0 Hc. symmetry. apply Heq. exact Hc.
+Qed.
+
+Lemma capply_bin_S : forall n s c op f g,
+  capply_bin lt C cget cadd (S n) s c op f g =
+  match cterminal s op f g with
+  | KFail => None
+  | KDone h => Some (s, c, h)
+  | KNodes fnode gnode =>
+    if lt f g then cbin_step C cget cadd (fun s' c' f' g' => capply_bin lt C cget cadd n s' c' op f' g') s c op f fnode g gnode
+    else cbin_step C cget cadd (fun s' c' f' g' => capply_bin lt C cget cadd n s' c' op f' g') s c op g gnode f fnode
+  end.
+Proof. reflexivity. Qed.
+
+Theorem capply_bin_ok : forall op fuel s c f g phi psi,
+  BcOK s -> CacheOKC s c -> DenC s f phi -> DenC s g psi ->
+  nlevels s - Nat.min (rlevel s (eref f)) (rlevel s (eref g)) < fuel ->
+  cresult_ok s c (capply_bin lt C cget cadd fuel s c op f g)
+             (fun c0 => ceval op (phi c0) (psi c0)).
+Proof.
+  intros op. induction fuel as [|n IH]; intros s c f g phi psi B O Df Dg Hfuel; [lia|].
+  rewrite capply_bin_S.
+  pose proof (cterminal_sound s op f g phi psi B Df Dg) as T.
+  destruct (cterminal s op f g) as [r|fn gn|]; [| |contradiction].
+  - apply cresult_ok_here; auto.
+  - destruct T as [idf [idg [Erf [Ef [Erg Eg]]]]].
+    rewrite Erf, Erg, (rlevel_node s idf fn Ef), (rlevel_node s idg gn Eg) in Hfuel.
+    destruct (lt f g).
+    + apply (cbin_step_ok op n _ IH s c f idf fn g idg gn phi psi); auto.
+    + apply (cresult_ok_ext s c _ (fun c0 => ceval op (psi c0) (phi c0))).
+      * apply (cbin_step_ok op n _ IH s c g idg gn f idf fn psi phi); auto. lia.
+      * intros c0 _. apply ceval_comm.
+Qed.
+
+(** ** The eight binary operators of the [BooleanFunction] interface *)
+
+Lemma rlevel_enot : forall s e, rlevel s (eref (enot e)) = rlevel s (eref e).
+Proof. reflexivity. Qed.
+
+Theorem capply_op_ok : forall o fuel s c f g phi psi,
+  BcOK s -> CacheOKC s c -> DenC s f phi -> DenC s g psi ->
+  nlevels s - Nat.min (rlevel s (eref f)) (rlevel s (eref g)) < fuel ->
+  cresult_ok s c (capply_op lt C cget cadd fuel s c o f g)
+             (fun c0 => eval_bop o (phi c0) (psi c0)).
+Proof.
+  intros o fuel s c f g phi psi B O Df Dg Hfuel.
+  pose proof (denc_not s f phi Df) as Dnf. pose proof (denc_not s g psi Dg) as Dng.
+  Local Ltac tt phi psi := let c0 := fresh "c0" in intros c0 _; cbv beta; destruct (phi c0); destruct (psi c0); reflexivity.
+  destruct o; unfold capply_op.
+  - (* and *)
+    apply (cresult_ok_ext s c _ _ _ (capply_bin_ok CAnd fuel s c f g phi psi B O Df Dg Hfuel)). tt phi psi.
+  - (* or = not (and (not f) (not g)) *)
+    apply (cresult_ok_ext s c _ _ _
+             (cresult_ok_not s c _ _ (capply_bin_ok CAnd fuel s c (enot f) (enot g) _ _ B O Dnf Dng Hfuel))).
+    tt phi psi.
+  - (* xor *)
+    apply (cresult_ok_ext s c _ _ _ (capply_bin_ok CXor fuel s c f g phi psi B O Df Dg Hfuel)). tt phi psi.
+  - (* equiv = not xor *)
+    apply (cresult_ok_ext s c _ _ _
+             (cresult_ok_not s c _ _ (capply_bin_ok CXor fuel s c f g phi psi B O Df Dg Hfuel))).
+    tt phi psi.
+  - (* nand = not and *)
+    apply (cresult_ok_ext s c _ _ _
+             (cresult_ok_not s c _ _ (capply_bin_ok CAnd fuel s c f g phi psi B O Df Dg Hfuel))).
+    tt phi psi.
+  - (* nor = and (not f) (not g) *)
+    apply (cresult_ok_ext s c _ _ _ (capply_bin_ok CAnd fuel s c (enot f) (enot g) _ _ B O Dnf Dng Hfuel)).
+    tt phi psi.
+  - (* imp = not (and f (not g)) *)
+    apply (cresult_ok_ext s c _ _ _
+             (cresult_ok_not s c _ _ (capply_bin_ok CAnd fuel s c f (enot g) _ _ B O Df Dng Hfuel))).
+    tt phi psi.
+  - (* imp_strict = and (not f) g *)
+    apply (cresult_ok_ext s c _ _ _ (capply_bin_ok CAnd fuel s c (enot f) g _ _ B O Dnf Dg Hfuel)).
+    tt phi psi.
+Qed.
+
+End CacheSec.
+
+Arguments lossyC {C}.
+Arguments CacheOKC {C}.
+Arguments cresult_ok {C}.
